@@ -55,6 +55,27 @@ type VM struct {
 	Name string
 	// Match returns the values to bind and the abstract value for each.
 	Match func(fn *ssa.Function) map[ssa.Value]AV
+	// Also: auxiliary injections (context assumptions such as "no cache hit");
+	// they are applied together with Match but are not guard positions.
+	Also []VM
+}
+
+// with adds context injections to a guard.
+func (v VM) with(aux ...VM) VM {
+	v.Also = append(append([]VM{}, v.Also...), aux...)
+	return v
+}
+
+func (v VM) all(fn *ssa.Function) map[ssa.Value]AV {
+	out := v.Match(fn)
+	for _, a := range v.Also {
+		for k, x := range a.all(fn) {
+			if _, ok := out[k]; !ok {
+				out[k] = x
+			}
+		}
+	}
+	return out
 }
 
 func allValues(fn *ssa.Function, f func(v ssa.Value)) {
@@ -398,7 +419,7 @@ func (p *P) guarded(rule string, fn *ssa.Function, sinks []Sink, guards ...VM) {
 			p.r.Fail(rule, fname+": guard "+g.Name, p.c.Pos(fn.Pos()), "guard «"+g.Name+"» does not occur in "+fname+" (check removed?)")
 			continue
 		}
-		s := RunSCCP(fn, inj)
+		s := RunSCCP(fn, g.all(fn))
 		// sort for stable output
 		for _, sk := range sinks {
 			construct := fmt.Sprintf("%s: %s requires %s", fname, sk.Label, g.Name)
@@ -445,7 +466,7 @@ func (p *P) guardedAfter(rule string, fn *ssa.Function, sinks []Sink, guards ...
 			p.r.Fail(rule, fname+": guard "+g.Name, p.c.Pos(fn.Pos()), "guard «"+g.Name+"» does not occur in "+fname+" (check removed?)")
 			continue
 		}
-		s := RunSCCP(fn, inj)
+		s := RunSCCP(fn, g.all(fn))
 		for _, sk := range sinks {
 			construct := fmt.Sprintf("%s: %s unreachable after failed %s", fname, sk.Label, g.Name)
 			bad := ""
